@@ -7,7 +7,7 @@ from .c09 import tup
 
 PID = "C10"
 META = {
-    "explanation": "Static analysis on the MIR of the current tree: the V1 arm of Metadata::read_from is decoded into its seek distance, read sequence and field sources (root offset u64 LE, codec id u8 validated through from_u8, count u64 LE, index_levels = constant 0, 17+4 bytes, magic 0x76324D4C -> FormatV1) and compared with the statement, with the V1 arm of write_into and (thorough) with grenad 0.4.7; the V1 and V2 read arms are the same skeleton up to the trailing levels byte; and a who-may-read analysis shows that Metadata.file_version is read only by the public getter, the trailer writer and derived impls — no cursor, iterator, block or merger code can branch on the version, so every query result is a function of the other four metadata fields and the block bytes alone. 'Identical results' therefore reduces to C02–C05 on the shared code path. Reader::new is the trailer read with its error propagated and nothing else.",
+    "explanation": "Static analysis on the MIR of the current tree: the V1 arm of Metadata::read_from is decoded into its seek distance, read sequence and field sources (root offset u64 LE, codec id u8 validated through from_u8, count u64 LE, index_levels = constant 0, 17+4 bytes, magic 0x76324D4C -> FormatV1) and compared with the statement, with the V1 arm of write_into and (thorough) with grenad 0.4.7; the V1 and V2 read arms are the same skeleton up to the trailing levels byte; and a who-may-read analysis shows that Metadata.file_version is read only by the public getter, the trailer writer and derived impls — no cursor, iterator, block or merger code can branch on the version, so every query result is a function of the other four metadata fields and the block bytes alone. 'Identical results' therefore reduces to C02–C05 on the shared code path. Reader::new is the trailer read with its error propagated and nothing else. Beyond the trailer the code is version-blind, so queries on V1 files are answered by the common path: the codec table, the shared cursor-traversal rules and the range / prefix iterator rules (rules/shared.py) are re-run as necessary conditions of 'identical results'.",
     "assumptions": ["byteorder read widths", "C02-C05 for the shared query code"],
 }
 
@@ -20,6 +20,13 @@ def run(ck):
         ck.guard("C10-R3", r3_version_blind, ck, F)
         from .c13 import reader_new_is_trailer_read
         ck.guard("C10-R3", reader_new_is_trailer_read, ck, F, "C10-R3")
+        from . import shared
+        # "identical results" of every query: beyond the trailer the code is version-blind (R3), so what answers queries on
+        # V1 files is the common path — codec table, cursor and iterators
+        from .c01 import r3_codec_table
+        ck.guard("C10-R4", r3_codec_table, ck, F, "C10-R4")
+        shared.cursor_traversal(ck, F, "C10-R4")
+        shared.iterators(ck, F, "C10-R4")
     if ck.tier == "thorough":
         ck.guard("C10-R1", r1_xver, ck)
     ck.trusted += ["rustc MIR construction", "byteorder"]
